@@ -13,6 +13,7 @@ import EaselModel.Msa.LemmasC2WSimple
 import EaselModel.Msa.LemmasFull
 import EaselModel.Msa.LemmasPairs
 import EaselModel.Msa.LemmasClass
+import EaselModel.Msa.LemmasPk3
 /-! # C15 — alignment transformations keep the alignment well formed and the residues intact; WUSS round trips
 
 Property theorems only; proofs are glue on the lemmas of `EaselModel/Msa/Lemmas*.lean`.
@@ -399,6 +400,67 @@ theorem nopk_repaired_then_compacted (ss : Bytes) (mask : List Bool) (hnl : ∀ 
     ∃ ss', removeBrokenFromSS ss mask = .ok ss' ∧ ss'.length = ss.length ∧
       wuss2ct ss' = some (breakPairs mask 1 ss.length ct) ∧ ∃ ct2, wuss2ct (maskFilter mask ss') = some ct2 :=
   repaired_then_compacted_balanced' ss mask ct h (wuss2ct_nopk_nested' ss hnl ct h) hm
+
+/-- PSEUDOKNOTTED ROUND TRIP (any symmetric pair table, crossing pairs allowed): whenever `esl_ct2wuss` returns
+    `eslOK`, `esl_wuss2ct` of its output is the same table. (`esl_ct2wuss` may refuse a table whose greedy lettering
+    needs more than `A..Z`: documented `eslEINVAL`.) -/
+theorem pk_roundtrip (n : Nat) (ct : List Nat) (hct : CtOk n ct) (ss : Bytes) (h : ct2wuss ct = .ok ss) :
+    wuss2ct ss = some ct :=
+  pk_roundtrip' n ct hct ss h
+
+/-- what `esl_ct2wuss` writes for an arbitrary table: `n` symbols; unpaired positions carry unpaired symbols, every
+    pair a bracket pair or an upper/lower letter pair, and pairs that share a stack never cross -/
+theorem ct2wuss_is_class_labelling (n : Nat) (ct : List Nat) (hct : CtOk n ct) (ss : Bytes) (h : ct2wuss ct = .ok ss) :
+    ss.length = n ∧ ClassLabels ct ss ∧ ClassNested ct ss :=
+  ct2wuss_class_labels n ct hct ss h
+
+/-- THE PAIR-SET THEOREM: for ANY balanced WUSS string (pseudoknot letters included) wuss -> ct -> wuss -> ct returns
+    the same pair table -/
+theorem wuss_ct_wuss_ct_pk (ss ss2 : Bytes) (ct : List Nat) (h1 : wuss2ct ss = some ct) (h2 : ct2wuss ct = .ok ss2) :
+    wuss2ct ss2 = some ct :=
+  pk_roundtrip' ss.length ct (wuss2ct_ctOk ss ct h1) ss2 h2
+
+/-- `esl_msa_RemoveBrokenBasepairsFromSS` on ANY balanced SS line: when it returns `eslOK`, the line it wrote reads
+    back as exactly the original pairs whose two partners are both retained -/
+theorem removeBroken_pairs_pk (ss ss' : Bytes) (useme : List Bool) (ct : List Nat) (h : wuss2ct ss = some ct)
+    (h2 : removeBrokenFromSS ss useme = .ok ss') :
+    wuss2ct ss' = some (breakPairs useme 1 ss.length ct) := by
+  have hct := wuss2ct_ctOk ss ct h
+  have hb := (breakPairs_ctOk_nested useme ss.length ct hct).1
+  simp only [removeBrokenFromSS, h] at h2
+  exact pk_roundtrip' ss.length _ hb ss' h2
+
+/-- DNA/RNA `esl_msa_ColumnSubset` on ANY balanced SS line (pseudoknots included), both steps, pair sets included: if
+    the repair returns `eslOK`, it spells exactly the retained pairs and the compacted line is read as those pairs
+    renumbered to the new columns -/
+theorem columnSubset_pairs_pk (ss ss' : Bytes) (mask : List Bool) (ct : List Nat) (h : wuss2ct ss = some ct)
+    (hm : mask.length = ss.length) (h2 : removeBrokenFromSS ss mask = .ok ss') :
+    ∃ ps, breakPairs mask 1 ss.length ct = tableOf (List.replicate (ss.length + 1) 0) ps ∧
+      wuss2ct (maskFilter mask ss') =
+        some (tableOf (List.replicate ((maskFilter mask ss').length + 1) 0) (relabelPs (newPos mask) ps)) := by
+  have hct := wuss2ct_ctOk ss ct h
+  have hb := (breakPairs_ctOk_nested mask ss.length ct hct).1
+  have h2' := h2
+  simp only [removeBrokenFromSS, h] at h2'
+  obtain ⟨hlen, hlab, _⟩ := ct2wuss_class_labels ss.length _ hb ss' h2'
+  have h3 := pk_roundtrip' ss.length _ hb ss' h2'
+  have hrem : removesOnlyGaps isUnpairedSym mask ss' := by
+    apply removesOnlyGaps_of_forall
+    intro i h1' h2'' h3'
+    have hz : (breakPairs mask 1 ss.length ct).getD (i+1) 0 = 0 := by
+      rw [breakPairs_spec' mask ss.length ct hct (i+1), if_neg]
+      intro hc
+      have := hc.2.1
+      simp only [Nat.add_sub_cancel] at this
+      have h4 : mask.getD i false = false := by
+        simp only [List.getD_eq_getElem?_getD, List.getElem?_eq_getElem h1', Option.getD_some] at h3' ⊢
+        exact h3'
+      rw [h4] at this; cases this
+    have := (hlab (i+1) (by omega) (by omega)).1 hz
+    simpa using this
+  obtain ⟨ps, hp1, hp2⟩ := compacted_pairs' ss' mask (by rw [hm, hlen]) hrem _ h3
+  rw [hlen] at hp1
+  exact ⟨ps, hp1, hp2⟩
 
 /-- READING HALF OF THE PSEUDOKNOTTED ROUND TRIP: for ANY symmetric pair table (crossing pairs allowed) and any string
     that labels every pair with a bracket pair or an upper/lower-case letter pair and every unpaired position with an
